@@ -13,7 +13,8 @@ EXTRA = {  # checks besides the seed's own property that are worth running again
     "C07-A": ["C18"], "C07-B": ["C18"], "C08-B": ["C07", "C18"], "C09-A": ["C19"], "C10-A": ["C11"], "C10-B": ["C13"],
     "C11-A": ["C10"], "C13-A": ["C10"], "C14-A": ["C02"], "C15-A": ["C04"], "C18-A": ["C07"], "C18-B": ["C07"],
     "C19-A": ["C09"], "C04-E": ["C14"], "C04-F": ["C15"], "C07-G": ["C14"], "C18-E": ["C07"], "C01-F": ["C02"],
-    "C07-C": ["C18"], "C07-D": ["C18"],
+    "C07-C": ["C18"], "C07-D": ["C18"], "C01-D": ["C02"], "C12-F": ["C11"], "C15-E": ["C04"], "C06-E": ["C05"],
+    "C06-F": ["C05"],
 }
 
 
@@ -21,6 +22,8 @@ def run_one(name, tier):
     d = os.path.join(HERE, "seeded", name)
     meta = json.load(open(os.path.join(d, "meta.json")))
     props = [meta["property"]] + EXTRA.get(name, [])
+    if meta.get("retired"):
+        return name, {"error": "retired: " + meta["retired"][:120]}
     scratch = tempfile.mkdtemp(prefix="y0seed-", dir="/tmp")
     os.rmdir(scratch)
     out = {}
@@ -66,6 +69,9 @@ def main():
         if not os.path.exists(mp):
             continue
         m = json.load(open(mp))
+        if m.get("retired"):
+            rows.append(f"| {n} | {m['property']} | {m['needs_to_manifest'][:230]} | retired: {m['retired']} |")
+            continue
         verdicts = ", ".join(f"{p}: {'**caught**' if v.get('caught') else 'not caught (rc=' + str(v.get('exit_code')) + ')'}"
                              for p, v in m.get("checks", {}).items())
         rows.append(f"| {n} | {m['property']} | {m['needs_to_manifest'][:230]} | {verdicts} |")
